@@ -1,9 +1,590 @@
-// Package c15: check for property C15 (stub until implemented).
+// Package c15: Feldman VSS (ENUM).
+//
+// Space enumerated: curves {secp256k1, edwards25519} x all (t,n), 1<=t<n<=5 (thorough n<=6) x secret
+// classes x admissible id patterns x ALL non-empty subsets of the dealt shares, plus every single
+// alteration (share+-1, id+-1, each commitment + G) and every refused id pattern (an id = 0, q, 2q at
+// every position; every pair of ids congruent modulo q; exact duplicates).
+//
+// Oracle = the clauses of the property statement, evaluated with the independent curve / Lagrange
+// arithmetic of verif/internal/ref.
 package c15
 
-import "verif/internal/core"
+import (
+	"crypto/elliptic"
+	"fmt"
+	"math/big"
+	"runtime"
+	"sync/atomic"
+
+	"github.com/bnb-chain/tss-lib/v2/crypto"
+	"github.com/bnb-chain/tss-lib/v2/crypto/vss"
+	"github.com/bnb-chain/tss-lib/v2/tss"
+
+	"verif/internal/core"
+	"verif/internal/ref"
+)
 
 // Implemented reports whether this check is built.
-const Implemented = false
+const Implemented = true
 
-func Run(r *core.Run) { r.Cap("not implemented") }
+type curveCtx struct {
+	name string
+	ec   elliptic.Curve
+	rc   *ref.Curve
+	q    *big.Int
+}
+
+type named struct {
+	name string
+	v    *big.Int
+}
+
+type idPattern struct {
+	name string
+	ids  func(cv *curveCtx, n int) []*big.Int
+}
+
+var evals int64
+
+func ev(r *core.Run, caseKey string) {
+	atomic.AddInt64(&evals, 1)
+	r.Distinct("cases", caseKey)
+}
+
+func bi(i int64) *big.Int { return big.NewInt(i) }
+
+func addI(a *big.Int, d int64) *big.Int { return new(big.Int).Add(a, bi(d)) }
+
+func mulQ(q *big.Int, k int64, d int64) *big.Int {
+	return new(big.Int).Add(new(big.Int).Mul(q, bi(k)), bi(d))
+}
+
+func generic(label string, nbytes int) *big.Int {
+	return new(big.Int).SetBytes(core.Bytes(label, nbytes))
+}
+
+func copyInts(in []*big.Int) []*big.Int {
+	out := make([]*big.Int, len(in))
+	for i, v := range in {
+		out[i] = new(big.Int).Set(v)
+	}
+	return out
+}
+
+func strs(in []*big.Int) []string {
+	out := make([]string, len(in))
+	for i, v := range in {
+		if v == nil {
+			out[i] = "nil"
+		} else {
+			out[i] = v.String()
+		}
+	}
+	return out
+}
+
+// guard runs f and turns a panic of the code under test into a violation `<key>:panic`.
+func guard(r *core.Run, key string, rec interface{}, f func()) (ok bool) {
+	defer func() {
+		if e := recover(); e != nil {
+			r.Violate(key+":panic", fmt.Sprintf("panic in the code under test: %v", e), rec)
+			ok = false
+		}
+	}()
+	f()
+	return true
+}
+
+func patterns() []idPattern {
+	return []idPattern{
+		{"1..n", func(cv *curveCtx, n int) []*big.Int {
+			out := make([]*big.Int, n)
+			for i := range out {
+				out[i] = bi(int64(i + 1))
+			}
+			return out
+		}},
+		{"q+1..q+n", func(cv *curveCtx, n int) []*big.Int {
+			out := make([]*big.Int, n)
+			for i := range out {
+				out[i] = mulQ(cv.q, 1, int64(i+1))
+			}
+			return out
+		}},
+		{"generic256", func(cv *curveCtx, n int) []*big.Int {
+			out := make([]*big.Int, n)
+			for i := range out {
+				out[i] = generic(fmt.Sprintf("c15/id/generic256/%d", i), 32)
+			}
+			return out
+		}},
+		{"generic512", func(cv *curveCtx, n int) []*big.Int {
+			out := make([]*big.Int, n)
+			for i := range out {
+				out[i] = generic(fmt.Sprintf("c15/id/generic512/%d", i), 64)
+			}
+			return out
+		}},
+		{"mixed", func(cv *curveCtx, n int) []*big.Int {
+			all := []*big.Int{
+				mulQ(cv.q, 1, -1), // q-1
+				bi(1),
+				mulQ(cv.q, 2, 3),
+				generic("c15/id/mixed/3", 32),
+				mulQ(cv.q, 1, 2),
+				mulQ(cv.q, 3, -5),
+			}
+			return all[:n]
+		}},
+	}
+}
+
+type instance struct {
+	cv     *curveCtx
+	t, n   int
+	sec    named
+	pat    idPattern
+	sample bool
+}
+
+func (in *instance) tag() string {
+	return fmt.Sprintf("%s/t%d/n%d/s=%s/ids=%s", in.cv.name, in.t, in.n, in.sec.name, in.pat.name)
+}
+
+func toRef(p *crypto.ECPoint) ref.Point { return ref.Point{X: p.X(), Y: p.Y()} }
+
+// refCommitEval computes sum_k id^k * V_k with the reference arithmetic.
+func refCommitEval(cv *curveCtx, vs []ref.Point, id *big.Int) ref.Point {
+	acc := cv.rc.Neutral()
+	pow := bi(1)
+	idm := new(big.Int).Mod(id, cv.q)
+	for k := range vs {
+		acc = cv.rc.Add(acc, cv.rc.Mul(pow, vs[k]))
+		pow = new(big.Int).Mod(new(big.Int).Mul(pow, idm), cv.q)
+	}
+	return acc
+}
+
+func subsetsOfSize(n, k int) [][]int {
+	var out [][]int
+	for m := 1; m < 1<<uint(n); m++ {
+		var s []int
+		for i := 0; i < n; i++ {
+			if m>>uint(i)&1 == 1 {
+				s = append(s, i)
+			}
+		}
+		if len(s) == k {
+			out = append(out, s)
+		}
+	}
+	return out
+}
+
+func runInstance(r *core.Run, in *instance) {
+	cv, t, n := in.cv, in.t, in.n
+	q := cv.q
+	tag := in.tag()
+	kc := func(area, what string) string { // violation key: no concrete numbers
+		return fmt.Sprintf("%s/%s/ids=%s/%s", area, what, in.pat.name, cv.name)
+	}
+	ids := in.pat.ids(cv, n)
+	secret := in.sec.v
+	baseRec := map[string]interface{}{"curve": cv.name, "t": t, "n": n, "secret": secret.String(),
+		"secret_class": in.sec.name, "id_pattern": in.pat.name, "ids": strs(ids), "drbg_label": "c15/create/" + tag}
+
+	var vs vss.Vs
+	var shares vss.Shares
+	var err error
+	ev(r, "create/"+tag)
+	if !guard(r, kc("create", "admissible"), baseRec, func() {
+		vs, shares, err = vss.Create(cv.ec, t, new(big.Int).Set(secret), copyInts(ids), core.NewDRBG("c15/create/"+tag))
+	}) {
+		return
+	}
+	if err != nil {
+		r.Violate(kc("create", "admissible-refused"), "Create refused admissible ids: "+err.Error(), baseRec)
+		return
+	}
+	if len(vs) != t+1 || len(shares) != n {
+		r.Violate(kc("create", "wrong-sizes"), fmt.Sprintf("Create returned %d commitments and %d shares for t=%d n=%d", len(vs), len(shares), t, n), baseRec)
+		return
+	}
+	for i, sh := range shares {
+		if sh == nil || sh.ID == nil || sh.Share == nil || new(big.Int).Mod(new(big.Int).Sub(sh.ID, ids[i]), q).Sign() != 0 {
+			r.Violate(kc("create", "share-id-mismatch"), fmt.Sprintf("share %d does not carry id %d of the input", i, i), baseRec)
+			return
+		}
+	}
+	rec := func(extra map[string]interface{}) map[string]interface{} {
+		m := map[string]interface{}{}
+		for k, v := range baseRec {
+			m[k] = v
+		}
+		sv := make([]string, n)
+		for i, sh := range shares {
+			sv[i] = sh.Share.String()
+		}
+		m["shares"] = sv
+		cm := make([][2]string, len(vs))
+		for k, v := range vs {
+			cm[k] = [2]string{v.X().String(), v.Y().String()}
+		}
+		m["commitments"] = cm
+		for k, v := range extra {
+			m[k] = v
+		}
+		return m
+	}
+	if in.sample {
+		r.Sample(6, rec(map[string]interface{}{"what": "dealt instance (all clauses evaluated on it)"}))
+	}
+
+	// --- V_0 = secret*G (reference arithmetic); every commitment is a point of the curve ---
+	refVs := make([]ref.Point, len(vs))
+	for k, v := range vs {
+		refVs[k] = toRef(v)
+		ev(r, fmt.Sprintf("commit-on-curve/%s/k%d", tag, k))
+		if !cv.rc.OnCurve(refVs[k].X, refVs[k].Y) {
+			r.Violate(kc("create", "commitment-off-curve"), fmt.Sprintf("commitment V_%d is not a canonical point of the curve", k), rec(nil))
+			return
+		}
+	}
+	ev(r, "V0/"+tag)
+	if want := cv.rc.BaseMul(new(big.Int).Mod(secret, q)); !cv.rc.Equal(want, refVs[0]) {
+		r.Violate(fmt.Sprintf("create/V0-not-secretG/s=%s/%s", in.sec.name, cv.name), "first commitment differs from secret*G (reference curve)", rec(nil))
+	}
+
+	// --- each share verifies under its own id, under no other id of the set; reference cross-check ---
+	for i := 0; i < n; i++ {
+		var okV bool
+		ev(r, fmt.Sprintf("verify-own/%s/i%d", tag, i))
+		if guard(r, kc("verify", "own-id"), rec(map[string]interface{}{"share_index": i}), func() { okV = shares[i].Verify(cv.ec, t, vs) }) && !okV {
+			r.Violate(kc("verify", "own-id-rejected"), fmt.Sprintf("share %d does not verify under its own id", i), rec(map[string]interface{}{"share_index": i}))
+		}
+		// the same statement evaluated with the reference arithmetic (independent of Verify)
+		ev(r, fmt.Sprintf("ref-eval/%s/i%d", tag, i))
+		if !cv.rc.Equal(refCommitEval(cv, refVs, shares[i].ID), cv.rc.BaseMul(new(big.Int).Mod(shares[i].Share, q))) {
+			r.Violate(kc("poly", "share-not-on-committed-polynomial"), fmt.Sprintf("sum_k id^k V_k != share*G for share %d (reference arithmetic)", i), rec(map[string]interface{}{"share_index": i}))
+		}
+		for j := 0; j < n; j++ {
+			if j == i {
+				continue
+			}
+			forged := &vss.Share{Threshold: t, ID: new(big.Int).Set(ids[j]), Share: new(big.Int).Set(shares[i].Share)}
+			var okO bool
+			ev(r, fmt.Sprintf("verify-other/%s/i%d/j%d", tag, i, j))
+			rc := rec(map[string]interface{}{"share_index": i, "claimed_id_index": j})
+			if guard(r, kc("verify", "other-id"), rc, func() { okO = forged.Verify(cv.ec, t, vs) }) && okO {
+				r.Violate(kc("verify", "other-id-accepted"), fmt.Sprintf("share %d verifies under the id of share %d", i, j), rc)
+			}
+		}
+	}
+
+	// --- all non-empty subsets: >= t+1 reconstruct exactly the secret, fewer never do ---
+	for m := 1; m < 1<<uint(n); m++ {
+		var idx []int
+		for i := 0; i < n; i++ {
+			if m>>uint(i)&1 == 1 {
+				idx = append(idx, i)
+			}
+		}
+		for _, order := range []string{"asc", "desc"} {
+			if order == "desc" && len(idx) == 1 {
+				continue
+			}
+			sub := make(vss.Shares, 0, len(idx))
+			if order == "asc" {
+				for _, i := range idx {
+					sub = append(sub, shares[i])
+				}
+			} else {
+				for k := len(idx) - 1; k >= 0; k-- {
+					sub = append(sub, shares[idx[k]])
+				}
+			}
+			var got *big.Int
+			var rerr error
+			ev(r, fmt.Sprintf("reconstruct/%s/m%d/%s", tag, m, order))
+			rc := rec(map[string]interface{}{"subset": idx, "order": order})
+			sizeClass := "size<=t"
+			if len(idx) == t+1 {
+				sizeClass = "size=t+1"
+			} else if len(idx) > t+1 {
+				sizeClass = "size>t+1"
+			}
+			if !guard(r, kc("reconstruct", sizeClass), rc, func() { got, rerr = sub.ReConstruct(cv.ec) }) {
+				continue
+			}
+			if len(idx) >= t+1 {
+				if rerr != nil {
+					r.Violate(kc("reconstruct", sizeClass+"-error"), "ReConstruct failed on a qualified subset: "+rerr.Error(), rc)
+				} else if got == nil || got.Cmp(secret) != 0 {
+					rc["got"] = fmt.Sprint(got)
+					r.Violate(kc("reconstruct", sizeClass+"-wrong-secret"), "a qualified subset does not reconstruct exactly the secret", rc)
+				}
+				// reference reconstruction (Lagrange at 0) must agree as well
+				xs := make([]*big.Int, len(idx))
+				for k, i := range idx {
+					xs[k] = shares[i].ID
+				}
+				lam := ref.LagrangeAt(q, xs, bi(0))
+				if lam == nil {
+					r.Violate(kc("poly", "ids-not-distinct-mod-q"), "reference Lagrange interpolation impossible: dealt ids collide modulo q", rc)
+				} else {
+					acc := new(big.Int)
+					for k, i := range idx {
+						acc.Add(acc, new(big.Int).Mul(lam[k], shares[i].Share))
+					}
+					if acc.Mod(acc, q).Cmp(new(big.Int).Mod(secret, q)) != 0 {
+						r.Violate(kc("poly", "reference-reconstruction-wrong"), "reference Lagrange interpolation of a qualified subset does not give the secret", rc)
+					}
+				}
+			} else {
+				r.Distinct("subthreshold-outcomes", fmt.Sprintf("err=%v", rerr != nil))
+				if rerr == nil && got != nil && new(big.Int).Mod(got, q).Cmp(new(big.Int).Mod(secret, q)) == 0 {
+					r.Violate(kc("reconstruct", "subthreshold-gives-secret"), fmt.Sprintf("%d <= t shares reconstruct the secret", len(idx)), rc)
+				}
+			}
+		}
+	}
+
+	// --- one polynomial of degree t: any t+1 shares interpolate every other share ---
+	for _, s := range subsetsOfSize(n, t+1) {
+		xs := make([]*big.Int, len(s))
+		inS := map[int]bool{}
+		for k, i := range s {
+			xs[k] = shares[i].ID
+			inS[i] = true
+		}
+		for j := 0; j < n; j++ {
+			if inS[j] {
+				continue
+			}
+			ev(r, fmt.Sprintf("lagrange/%s/S%v/at%d", tag, s, j))
+			lam := ref.LagrangeAt(q, xs, shares[j].ID)
+			rc := rec(map[string]interface{}{"subset": s, "at_index": j})
+			if lam == nil {
+				r.Violate(kc("poly", "ids-not-distinct-mod-q"), "dealt ids collide modulo q", rc)
+				continue
+			}
+			acc := new(big.Int)
+			for k, i := range s {
+				acc.Add(acc, new(big.Int).Mul(lam[k], shares[i].Share))
+			}
+			if acc.Mod(acc, q).Cmp(new(big.Int).Mod(shares[j].Share, q)) != 0 {
+				r.Violate(kc("poly", "lagrange-inconsistent"), "t+1 shares do not interpolate another dealt share: shares are not on one polynomial of degree t", rc)
+			}
+		}
+	}
+	// degree exactly bounded by t is also witnessed in the exponent: V_k are the coefficients (ref-eval above).
+
+	// --- single alterations must fail verification ---
+	for i := 0; i < n; i++ {
+		type alt struct {
+			name  string
+			share *vss.Share
+		}
+		var alts []alt
+		for _, d := range []int64{1, -1} {
+			s2 := addI(shares[i].Share, d)
+			if new(big.Int).Mod(s2, q).Sign() == 0 {
+				r.Count("alterations_skipped_identity", 1) // share == 0 mod q: identity point, C06's business
+				continue
+			}
+			alts = append(alts, alt{fmt.Sprintf("share%+d", d), &vss.Share{Threshold: t, ID: new(big.Int).Set(shares[i].ID), Share: s2}})
+		}
+		for _, d := range []int64{1, -1} {
+			id2 := addI(shares[i].ID, d)
+			if new(big.Int).Mod(id2, q).Sign() == 0 {
+				r.Count("alterations_skipped_identity", 1) // id == 0 mod q makes Verify multiply by 0 (identity), C06's business
+				continue
+			}
+			alts = append(alts, alt{fmt.Sprintf("id%+d", d), &vss.Share{Threshold: t, ID: id2, Share: new(big.Int).Set(shares[i].Share)}})
+		}
+		for _, a := range alts {
+			var okA bool
+			ev(r, fmt.Sprintf("alter/%s/i%d/%s", tag, i, a.name))
+			rc := rec(map[string]interface{}{"share_index": i, "alteration": a.name, "altered_id": a.share.ID.String(), "altered_share": a.share.Share.String()})
+			if guard(r, kc("alter", a.name), rc, func() { okA = a.share.Verify(cv.ec, t, vs) }) && okA {
+				r.Violate(kc("alter", a.name+"-accepted"), "altered share/id passes Verify", rc)
+			}
+		}
+		for k := 0; k <= t; k++ {
+			np := cv.rc.Add(refVs[k], cv.rc.G())
+			if cv.rc.IsNeutral(np) {
+				r.Count("alterations_skipped_identity", 1)
+				continue
+			}
+			pt, perr := crypto.NewECPoint(cv.ec, np.X, np.Y)
+			if perr != nil {
+				r.Violate(kc("alter", "cannot-build-point"), "NewECPoint refused V_k+G computed by the reference: "+perr.Error(), rec(map[string]interface{}{"k": k}))
+				continue
+			}
+			vs2 := make(vss.Vs, len(vs))
+			for kk := range vs {
+				x, y := vs[kk].X(), vs[kk].Y()
+				vs2[kk] = crypto.NewECPointNoCurveCheck(cv.ec, x, y)
+			}
+			vs2[k] = pt
+			var okA bool
+			ev(r, fmt.Sprintf("alter/%s/i%d/V%d+G", tag, i, k))
+			rc := rec(map[string]interface{}{"share_index": i, "alteration": fmt.Sprintf("V_%d+G", k)})
+			if guard(r, kc("alter", "commitment+G"), rc, func() { okA = shares[i].Verify(cv.ec, t, vs2) }) && okA {
+				r.Violate(kc("alter", "commitment+G-accepted"), fmt.Sprintf("share verifies against commitments with V_%d replaced by V_%d+G", k, k), rc)
+			}
+		}
+	}
+}
+
+// ---- refused id patterns ----
+
+type refusal struct {
+	cv   *curveCtx
+	t, n int
+	sec  named
+	name string // value class (no numbers)
+	pos  string
+	ids  []*big.Int
+}
+
+func refusals(cv *curveCtx, t, n int, sec named) []refusal {
+	var out []refusal
+	pats := patterns()
+	bases := []idPattern{pats[0], pats[1], pats[2]}
+	for _, b := range bases {
+		base := b.ids(cv, n)
+		for p := 0; p < n; p++ {
+			for _, z := range []named{{"id=0", bi(0)}, {"id=q", mulQ(cv.q, 1, 0)}, {"id=2q", mulQ(cv.q, 2, 0)}} {
+				ids := copyInts(base)
+				ids[p] = z.v
+				out = append(out, refusal{cv, t, n, sec, z.name + "/base=" + b.name, fmt.Sprintf("p%d", p), ids})
+			}
+		}
+		for i := 0; i < n; i++ {
+			for j := 0; j < n; j++ {
+				if i == j {
+					continue
+				}
+				for _, d := range []named{{"ids-equal", bi(0)}, {"ids-differ-by-q", mulQ(cv.q, 1, 0)}, {"ids-differ-by-2q", mulQ(cv.q, 2, 0)}, {"ids-differ-by-minus-q", mulQ(cv.q, -1, 0)}} {
+					if d.v.Sign() == 0 && j < i {
+						continue // exact duplicate is symmetric
+					}
+					v := new(big.Int).Add(base[i], d.v)
+					if v.Sign() < 0 {
+						continue // keep ids non-negative
+					}
+					ids := copyInts(base)
+					ids[j] = v
+					out = append(out, refusal{cv, t, n, sec, d.name + "/base=" + b.name, fmt.Sprintf("i%d-j%d", i, j), ids})
+				}
+				// the reduced alias of a large id
+				if base[i].Cmp(cv.q) >= 0 {
+					ids := copyInts(base)
+					ids[j] = new(big.Int).Mod(base[i], cv.q)
+					out = append(out, refusal{cv, t, n, sec, "id-and-its-residue/base=" + b.name, fmt.Sprintf("i%d-j%d", i, j), ids})
+				}
+			}
+		}
+	}
+	return out
+}
+
+func runRefusal(r *core.Run, rf *refusal) {
+	cv := rf.cv
+	tag := fmt.Sprintf("%s/t%d/n%d/s=%s/%s/%s", cv.name, rf.t, rf.n, rf.sec.name, rf.name, rf.pos)
+	rec := map[string]interface{}{"curve": cv.name, "t": rf.t, "n": rf.n, "secret": rf.sec.v.String(), "ids": strs(rf.ids), "pattern": rf.name, "position": rf.pos}
+	var err error
+	var vs vss.Vs
+	var shares vss.Shares
+	ev(r, "refuse-create/"+tag)
+	if guard(r, fmt.Sprintf("refuse/create/%s/%s", rf.name, cv.name), rec, func() {
+		vs, shares, err = vss.Create(cv.ec, rf.t, new(big.Int).Set(rf.sec.v), copyInts(rf.ids), core.NewDRBG("c15/refuse/"+tag))
+	}) && err == nil {
+		rec2 := map[string]interface{}{}
+		for k, v := range rec {
+			rec2[k] = v
+		}
+		rec2["n_commitments"], rec2["n_shares"] = len(vs), len(shares)
+		r.Violate(fmt.Sprintf("refuse/create-accepted/%s/%s", rf.name, cv.name), "Create dealt shares for inadmissible ids (0 modulo q, or two ids equal modulo q)", rec2)
+	}
+	ev(r, "refuse-checkindexes/"+tag)
+	var cerr error
+	if guard(r, fmt.Sprintf("refuse/checkindexes/%s/%s", rf.name, cv.name), rec, func() { _, cerr = vss.CheckIndexes(cv.ec, copyInts(rf.ids)) }) && cerr == nil {
+		r.Violate(fmt.Sprintf("refuse/checkindexes-accepted/%s/%s", rf.name, cv.name), "CheckIndexes accepted inadmissible ids", rec)
+	}
+}
+
+func Run(r *core.Run) {
+	maxN := 5
+	if r.Tier == "thorough" {
+		maxN = 6
+	}
+	curves := []*curveCtx{
+		{"secp256k1", tss.S256(), ref.Secp256k1, nil},
+		{"ed25519", tss.Edwards(), ref.Ed25519, nil},
+	}
+	for _, cv := range curves {
+		cv.q = new(big.Int).Set(cv.rc.N)
+		if cv.ec.Params().N.Cmp(cv.q) != 0 {
+			r.Violate("setup/group-order-differs/"+cv.name, "library curve order differs from the reference curve order", nil)
+			return
+		}
+	}
+	var insts []*instance
+	var refs []refusal
+	for _, cv := range curves {
+		secs := []named{
+			{"1", bi(1)},
+			{"q-1", mulQ(cv.q, 1, -1)},
+			{"generic", new(big.Int).Mod(generic("c15/secret/generic/"+cv.name, 40), cv.q)},
+		}
+		if r.Tier == "thorough" {
+			secs = append(secs,
+				named{"2", bi(2)},
+				named{"q-2", mulQ(cv.q, 1, -2)},
+				named{"generic2", new(big.Int).Mod(generic("c15/secret/generic2/"+cv.name, 40), cv.q)})
+		}
+		for n := 2; n <= maxN; n++ {
+			for t := 1; t < n; t++ {
+				for _, s := range secs {
+					for pi, p := range patterns() {
+						insts = append(insts, &instance{cv: cv, t: t, n: n, sec: s, pat: p,
+							sample: s.name == "generic" && n == 3 && t == 1 && pi < 3})
+					}
+					refs = append(refs, refusals(cv, t, n, s)...)
+				}
+			}
+		}
+	}
+	workers := runtime.NumCPU()
+	// largest instances first for load balance
+	order := make([]int, 0, len(insts))
+	for n := maxN; n >= 2; n-- {
+		for i, in := range insts {
+			if in.n == n {
+				order = append(order, i)
+			}
+		}
+	}
+	core.ParallelFor(len(order), workers, func(i int) { runInstance(r, insts[order[i]]) })
+	core.ParallelFor(len(refs), workers, func(i int) { runRefusal(r, &refs[i]) })
+	if len(refs) > 0 {
+		rf := refs[len(refs)/2]
+		r.Sample(8, map[string]interface{}{"what": "refused pattern (Create and CheckIndexes must return an error)", "curve": rf.cv.name, "t": rf.t, "n": rf.n, "pattern": rf.name, "position": rf.pos, "ids": strs(rf.ids)})
+	}
+
+	r.Set("instances", len(insts))
+	r.Set("refusal_cases", len(refs))
+	r.Set("max_n", maxN)
+	r.Set("evaluations", int(atomic.LoadInt64(&evals)))
+	r.Set("distinct_nontrivial", r.NDistinct("cases"))
+	r.Set("rule", "cases = curves{secp256k1,ed25519} x (t,n) 1<=t<n<=max_n x secret classes x id patterns{1..n,q+1..q+n,generic256,generic512,mixed(q-1,1,2q+3,..)}: "+
+		"one case per oracle evaluation (own-id verify per share; other-id verify per ordered pair; reference evaluation of the commitments per share; "+
+		"ReConstruct per non-empty subset in ascending and descending order; reference Lagrange consistency per (t+1)-subset and outside share; "+
+		"alteration share+-1, id+-1, V_k+G per share and k) plus refusal cases (id in {0,q,2q} at each position; ids[j]=ids[i]+{0,q,2q,-q} and residue aliases for every pair) "+
+		"for Create and CheckIndexes. Distinct = distinct canonical case strings (configuration + clause + indices); all are non-trivial (each executes library code on a different input).")
+	r.Assume("secrets are in [1,q-1] (0 would make V_0 the identity, which ECPoint cannot represent on secp256k1; C06 owns that)")
+	r.Assume("alterations that are equivalent modulo q (share+q, id+q) are not required to fail; alterations landing on 0 mod q are skipped and counted in alterations_skipped_identity")
+	r.Assume("fewer than t+1 shares: ReConstruct may return an error or a value different from the secret (it returns a different value without error for exactly t shares)")
+}
